@@ -29,6 +29,7 @@ func c07Run(lib *ast.KnowledgeLibrary, kbName, rule string, f0 *Fact) (c07Out, b
 	f := copyFact(f0)
 	dc := ast.NewDataContext()
 	dc.Add("F", f)
+	dc.Add("N", f0.K) // a top-level context variable for the templates that use one
 	kb.WorkingMemory.ResetAll()
 	kb.InitializeContext(dc)
 	re := kb.RuleEntries[rule]
